@@ -46,11 +46,13 @@ Fixpoint lookup_label (labels : list (str * Z)) (name : str) : option Z :=
 
 (** One node of the emission trace, as observed: kind (0 other, 1 CodePositionNode,
     2 RelocationAddressNode, 3 IncludeIpsNode), run address and resolver.pc before the node, bytes. *)
-Record tnode := { tn_kind : Z; tn_addr : Z; tn_pc : Z; tn_bytes : bytes }.
+Record tnode := { tn_kind : Z; tn_addr : Z; tn_pc : Z; tn_bytes : bytes; tn_ips : list (bytes * Z) }.
 
 (** The writer protocol, specified on the observed trace: bytes accumulate in source order; a
     [*=] flushes what was accumulated at the offset where it started and the next block starts at
-    the offset in force after the move ([pc] of the next node, or of the end). *)
+    the offset in force after the move ([pc] of the next node, or of the end).  The records of an
+    included patch ([tn_ips]) are handed to the writer where the [.include_ips] stands, at their own
+    offsets, and do not interrupt the run being accumulated (it is flushed later, as one block). *)
 Fixpoint cut_spec (ns : list tnode) (end_pc : Z) (block : bytes) (baddr : Z) : list (bytes * Z) :=
   match ns with
   | [] => match block with [] => [] | _ => [(block, baddr)] end
@@ -59,7 +61,7 @@ Fixpoint cut_spec (ns : list tnode) (end_pc : Z) (block : bytes) (baddr : Z) : l
       let next_pc := match rest with m :: _ => tn_pc m | [] => end_pc end in
       if tn_kind n =? 1 then
         (match block' with [] => [] | _ => [(block', baddr)] end) ++ cut_spec rest end_pc [] next_pc
-      else cut_spec rest end_pc block' baddr
+      else tn_ips n ++ cut_spec rest end_pc block' baddr
   end.
 
 (** Offsets: while the code is not relocated (no [@=] since the last [*=]) and runs in ROM, the
@@ -188,8 +190,7 @@ Definition spec_ok (s : spec) (impl : obs asmobs) : bool :=
   | SBlocks high user_map ns end_pc =>
       match impl with
       | OOk (blocks, _) =>
-          let no_ips := forallb (fun n => negb (tn_kind n =? 3)) ns in
-          (negb no_ips || list_eqb wblock_eqb (cut_spec ns end_pc [] 0) blocks)
+          list_eqb wblock_eqb (cut_spec ns end_pc [] 0) blocks
           && (user_map || offsets_ok high ns false) && pcs_ok ns end_pc
       | _ => true
       end
